@@ -24,7 +24,13 @@ fn lower(x: &[impl Flt], q: f64) -> usize {
 
 fn run_case<T: Elem>(case: u64, args: &Args, ev: &mut Ev, log: &mut EventLog) {
     let mut rng = Rng::derive(args.seed, "C04", &[case]);
-    let (spec, lab) = gen_grid_case::<T>(&mut rng, &GridOpts::default());
+    let (spec, lab) = gen_grid_case::<T>(
+        &mut rng,
+        &GridOpts {
+            extreme_magnitudes: true,
+            ..Default::default()
+        },
+    );
     let x = spec.axis_x();
     let y = spec.axis_y();
     let (nx, ny) = (x.len(), y.len());
